@@ -157,17 +157,18 @@ CLAIMED["C14"] = dict(
     technique="Lean 4 proofs parametric in the arithmetic + bit-exact differential correspondence (Lean Float vs numpy)",
     design="7 C14")
 CLAIMED["C02"] = dict(
-    text="Kernel-checked, for EVERY arithmetic: C02_axis_compressed — the writer compresses a dim vector exactly when the READER'S "
-         "own expansion of its first two entries reproduces it, so a compressed axis reads back elementwise equal whatever the "
-         "rounding (nearly-linear vectors are simply stored whole); C02_axis_full — an uncompressed axis comes back verbatim; "
-         "C02_stored_length — stored calibration datasets have length 2 or the extent; C02_data_units, C02_labels, C02_body_length — "
-         "data token + units, labels in order under '_labels_', exactly one dataset per axis; C02_readback_calibrated — every Array "
-         "read from a file satisfies C14.",
-    note="PARTIAL: the composition of the per-axis theorems through the dim<n> dataset lookups of _get_constructor_args is not "
-         "proved (it is compared bit-exactly by the correspondence at file level and after read-back, for every dtype / layout / "
-         "dims form). dtype, shape and element bytes of `data` are h5py's contract (H2), sampled by the data token on every case. "
-         "Excluded: a non-stack Array whose last dim name is '_labels_' (known finding, C15).",
-    technique="Lean 4 proofs parametric in the arithmetic + bit-exact differential correspondence at file and read-back level",
+    text="Kernel-checked, for EVERY arithmetic: C02_roundtrip — for every Array value the constructor can return (C02_ctor_meets_"
+         "hypotheses) whose dim vectors are numpy arrays, reading what to_h5 wrote succeeds and returns an Array with the same data "
+         "token, data shape, units, stack flag, labels in order, dim units and dim names, and per axis the saved dim vector verbatim "
+         "(uncompressed axis) or elementwise numpy-equal (compressed axis): the writer compresses exactly when the READER'S own "
+         "expansion of the first two entries reproduces the vector (C02_axis_compressed), so rounding of the ramp arithmetic cannot "
+         "break the round trip; nearly-linear vectors are simply stored whole (C02_axis_full). Composed through the dim<n> lookups "
+         "(injectivity of the generated names), stack detection and label recovery of _get_constructor_args and the constructor "
+         "(mkArray_ok). Also C02_stored_length, C02_data_units, C02_labels, C02_body_length, C02_readback_calibrated.",
+    note="dtype, shape and element bytes of `data` are h5py's contract (H2), sampled by the data token on every case. The float "
+         "instance of the arithmetic (Lean Float, bit-identical to numpy for the ramp) is exercised by the correspondence, the "
+         "theorem holds for any. Excluded by hypothesis: a non-stack Array whose last dim name is '_labels_' (known finding C15-K3).",
+    technique="Lean 4 proofs parametric in the arithmetic (full save/read composition) + bit-exact differential correspondence at file and read-back level",
     design="7 C02")
 
 CLAIMED["C03"] = dict(
